@@ -132,7 +132,8 @@ class Lit:
     PURE = {'range': range, 'len': len, 'tuple': tuple, 'list': list, 'dict': dict, 'set': set, 'frozenset': frozenset,
             'min': min, 'max': max, 'sum': sum, 'abs': abs, 'int': int, 'str': str, 'bool': bool, 'chr': chr, 'ord': ord,
             'bytes': bytes, 'bytearray': bytearray, 'sorted': sorted, 'enumerate': enumerate, 'zip': zip, 'any': any, 'all': all,
-            'reversed': reversed, 'divmod': divmod, 'round': round, 'next': next, 'iter': iter, 'repr': repr, 'hex': hex, 'callable': callable, 'id': id, 'bin': bin, 'map': map, 'filter': filter}
+            'reversed': reversed, 'divmod': divmod, 'round': round, 'next': next, 'iter': iter, 'repr': repr, 'hex': hex, 'callable': callable, 'id': id, 'bin': bin, 'map': map, 'filter': filter,
+            'reduce': __import__('functools').reduce, 'xor': __import__('operator').xor, 'or_': __import__('operator').or_, 'and_': __import__('operator').and_, 'add': __import__('operator').add, 'mul': __import__('operator').mul, 'itemgetter': __import__('operator').itemgetter}
 
     def __init__(self, repo, modname, env=None, opaque=None):
         self.repo = repo
